@@ -204,6 +204,33 @@ history_prop!(
     |it: &Interp| special_seen(it) && it.max_depth >= 4
 );
 
+// long, mostly quiet games: stacks more than a hundred plies deep before the unwinding starts
+history_prop!(
+    C04LongGames,
+    "C04/long-games",
+    Which {
+        undo: true,
+        register: false,
+        ..Which::default()
+    },
+    (
+        prop_oneof![
+            3 => gen::endgame(4).prop_map(|r| gen::build(&r).fen()),
+            2 => gen::seed_fen(),
+            1 => gen::placement(10).prop_map(|r| gen::build(&r).fen()),
+        ],
+        prop_oneof![
+            3 => prop::collection::vec(op_strategy(60, 2, 1, 1, 0), 100..420),
+            1 => prop::collection::vec(op_strategy(30, 6, 2, 3, 0), 40..300),
+        ]
+    )
+        .prop_map(|(fen, ops)| History { fen, ops })
+        .boxed(),
+    1_000,
+    25_000,
+    |it: &Interp| it.max_depth >= 100 && it.max_quiet_stretch >= 50
+);
+
 // ------------------------------------------------------------------------------ C05 (history part)
 
 history_prop!(
